@@ -461,6 +461,32 @@ def standard_run(chk, mod, extra_search=None):
         chk.violation(key, {"case": c, "observed": o, "model": shown.get(i), "coq_case": t,
                             "broken": "correspondence %s (model vs implementation)" % mod.CHECKER},
                       no_input=True)
+    # a broken correspondence with no failing input yet: search the neighbourhood of the disagreeing
+    # cases on the implementation (same family of inputs, varied parameters) for a concrete violation
+    if bad and not any(not v[2] for v in chk.violations) and hasattr(mod, "neighbours"):
+        seeds_cases, seen_txt = [], set()
+        for i in bad:
+            c = pairs[i][0]
+            t = json.dumps(c, default=str)
+            if t not in seen_txt:
+                seen_txt.add(t)
+                seeds_cases.append(c)
+            if len(seeds_cases) >= 6:
+                break
+        neigh = []
+        for c in seeds_cases:
+            neigh += list(mod.neighbours(c, chk.rng))
+        nouts = pool_map(mod.run_impl, neigh)
+        chk.coverage["evaluations"] += len(neigh)
+        chk.coverage.setdefault("distribution_extra", {})["neighbourhood search cases"] = len(neigh)
+        for c, o in zip(neigh, nouts):
+            why = mod.oracle(c, o)
+            if why:
+                if isinstance(o, (list, tuple)) and len(o) > 1 and isinstance(o[1], dict):
+                    o[1].pop("term", None)
+                chk.violation(vkey(c[0], why), {"case": c, "observed": o, "why": why,
+                                                "layer": "L3 oracle, neighbourhood search around a correspondence disagreement"})
+                break
     if extra_search is not None:
         extra_search(chk)
     if not chk.l1_ok and not chk.violations:
